@@ -128,6 +128,11 @@ class DatabaseService(Service, discriminator="database-service"):
         if not self._can_perform_action():
             return False
 
+        # check if the backup server was configured
+        if self.backup_server_ip is None:
+            self.sys_log.warning(f"{self.name} - {self.sys_log.hostname}: not configured.")
+            return False
+
         software_manager: SoftwareManager = self.software_manager
         ftp_client_service: FTPClient = software_manager.software.get("ftp-client")
 
